@@ -51,7 +51,7 @@ check("C18", "exploration", "runtime self-differential monitor: (bytes, declared
       "DESIGN.md section 3 C18")
 
 check("C17", "exploration", "runtime retention monitor: reachable-node count sampled at delivered records of lazily generated streams",
-      "Held on every sampled record of 98 streams (7 formats x separators x pass/filter/failing/rich, respelled filters, runs of non-targets, hierarchical targets, separator envelopes; quick 5e3, thorough 2e5 records each): tree size "
+      "Held on every sampled record of 99 streams (7 formats x separators x pass/filter/failing/rich, respelled filters, runs of non-targets, hierarchical targets, separator envelopes, scalar JSON targets; quick 5e3, thorough 2e5 records each): tree size "
       "in the second half never exceeds the first quarter's maximum. One recorded known finding (xml inter-record text nodes).",
       "Retention = reachable idr nodes (the statement's metric). Records of a stream share one shape.",
       "DESIGN.md section 3 C17")
